@@ -572,6 +572,8 @@ public:
             seed = sim::mix(sim::mix(o.seed, "C03-base"), (uint64_t)base);
         }
         sim::Rng g(seed);
+        if (o.prop == "C04" && o.get("planner").empty() && index % 3 == 2)
+            return genSolset(g);
         auto el = eligible(o);
         // round-robin over planners so every planner gets its share, seed decides the rest
         std::string planner = el[(size_t)(base % (long)el.size())];
@@ -701,6 +703,42 @@ public:
     }
 
     sim::CaseResult run(const sim::Options &o, const Json &plan) override;
+    sim::CaseResult runSolset(const sim::Options &o, const Json &plan);
+
+    // C04(e): a multiset of solutions (exact / approximate / objective-satisfying, ties, equal costs) added one by one
+    // to a problem definition; after every add the set must be ordered as the statement says
+    Json genSolset(sim::Rng &g)
+    {
+        Json plan = Json::object();
+        plan["kind"] = "solset";
+        plan["planner"] = "none";
+        plan["with_objective"] = g.chance(0.7);
+        plan["maximize"] = g.chance(0.2);
+        int n = (int)g.range(1, 14);
+        int span = g.chance(0.5) ? 3 : 50;  // few distinct values => many ties
+        Json ops = Json::array();
+        for (int i = 0; i < n; i++)
+        {
+            Json op = Json::object();
+            op["op"] = "add";
+            bool approx = g.chance(0.35);
+            op["approximate"] = approx;
+            if (approx)
+                op["difference"] = (double)g.range(0, span) / 4.0;
+            op["optimized"] = !approx && g.chance(0.4);
+            op["cost"] = (double)g.range(0, span) / 2.0;
+            op["length"] = (double)g.range(0, span) / 2.0;
+            if (g.chance(0.1))
+            {
+                Json c = Json::object();
+                c["op"] = "clearsolutions";
+                ops.push(c);
+            }
+            ops.push(op);
+        }
+        plan["ops"] = ops;
+        return plan;
+    }
 
     std::string crashContext(const Json &plan) const override
     {
@@ -861,6 +899,11 @@ namespace
         long judgedPaths = 0, judgedCosts = 0;
     };
 
+    const sim::Options &g_dummyOptions()
+    {
+        static sim::Options o;
+        return o;
+    }
     std::string sfx(const Ctx &c)
     {
         return " planner=" + c.planner;
@@ -988,7 +1031,11 @@ namespace
         }
         if (std::fabs(stored - truec) > tol)
             c.res.probes["stored-cost-above-true-cost(deferred-propagation)"]++;
-        if (sol.optimized_ != opt->isSatisfied(sol.cost_))
+        // (judged on exact solutions: planners deliberately never mark an approximate solution, which does not reach
+        // the goal, as meeting the objective - AIT*: "This solution is approximate and can not satisfy the objective")
+        if (sol.approximate_ && !sol.optimized_)
+            ;
+        else if (sol.optimized_ != opt->isSatisfied(sol.cost_))
         {
             c.res.violate(P + ".optimized-flag-mismatch" + sfx(c),
                           when + fmt(": optimized flag %d but isSatisfied(stored cost %.9g) = %d", (int)sol.optimized_, stored,
@@ -1070,8 +1117,119 @@ namespace
     }
 }  // namespace
 
+namespace
+{
+    // maximising path-length-like objective for the solset cases (isCostBetterThan reversed)
+    class MaxLength : public ob::PathLengthOptimizationObjective
+    {
+    public:
+        using ob::PathLengthOptimizationObjective::PathLengthOptimizationObjective;
+        bool isCostBetterThan(ob::Cost c1, ob::Cost c2) const override
+        {
+            return c1.value() > c2.value();
+        }
+    };
+}  // namespace
+
+sim::CaseResult PlanSim::runSolset(const sim::Options &, const Json &plan)
+{
+    sim::CaseResult res;
+    Json wd = Json::object();
+    wd["space"] = "rv";
+    wd["dim"] = 2;
+    wd["lo"] = 0.0;
+    wd["hi"] = 100.0;
+    {
+        auto w = world::build(wd);
+        auto pdef = std::make_shared<ob::ProblemDefinition>(w->si);
+        ob::OptimizationObjectivePtr opt;
+        if (plan.getb("with_objective"))
+        {
+            if (plan.getb("maximize"))
+                opt = std::make_shared<MaxLength>(w->si);
+            else
+                opt = std::make_shared<ob::PathLengthOptimizationObjective>(w->si);
+        }
+        Ctx c{g_dummyOptions(), plan, res};
+        c.planner = "solution-set";
+        std::vector<ob::PlannerSolution> model;
+        uint64_t h = 1469598103934665603ULL;
+        long adds = 0, ties = 0;
+        const auto &ops = plan["ops"].items();
+        for (size_t oi = 0; oi < ops.size() && res.vclass.empty(); oi++)
+        {
+            const Json &op = ops[oi];
+            if (op.gets("op") == "clearsolutions")
+            {
+                pdef->clearSolutionPaths();
+                model.clear();
+                if (pdef->getSolutionCount() != 0 || pdef->hasSolution())
+                    res.violate("C04.clear-left-solutions planner=solution-set", fmt("op %zu: solutions remain after clearSolutionPaths()", oi));
+                continue;
+            }
+            auto path = std::make_shared<og::PathGeometric>(w->si);
+            ob::ScopedState<> a(w->ss), b(w->ss);
+            a[0] = 0;
+            a[1] = 0;
+            b[0] = op.getd("length");
+            b[1] = 0;
+            path->append(a.get());
+            path->append(b.get());
+            ob::PlannerSolution sol(path);
+            if (op.getb("approximate"))
+                sol.setApproximate(op.getd("difference"));
+            if (opt)
+                sol.setOptimized(opt, ob::Cost(op.getd("cost")), op.getb("optimized"));
+            sol.setPlannerName("sim");
+            for (auto &m : model)
+                if (!refBefore(m, sol) && !refBefore(sol, m))
+                    ties++;
+            pdef->addSolutionPath(sol);
+            model.push_back(sol);
+            adds++;
+            auto sols = pdef->getSolutions();
+            if (sols.size() != model.size())
+            {
+                res.violate("C04.solution-count-mismatch planner=solution-set", fmt("op %zu: getSolutions() has %zu entries after %zu adds", oi, sols.size(), model.size()));
+                break;
+            }
+            // multiset preserved
+            for (auto &m : model)
+            {
+                bool found = false;
+                for (auto &s : sols)
+                    if (s.path_ == m.path_ && s.approximate_ == m.approximate_ && s.difference_ == m.difference_ &&
+                        s.optimized_ == m.optimized_ && s.cost_.value() == m.cost_.value())
+                        found = true;
+                if (!found)
+                {
+                    res.violate("C04.solution-lost-or-altered planner=solution-set", fmt("op %zu: an added solution is missing from getSolutions() or its fields changed", oi));
+                    break;
+                }
+            }
+            world::Query q;
+            q.pdef = pdef;
+            if (res.vclass.empty())
+                judgeOrder(c, q, fmt("op %zu (add)", oi));
+            for (auto &s : sols)
+                h = sim::hashDouble(h, s.approximate_ ? -s.difference_ : (opt ? s.cost_.value() : s.length_));
+        }
+        res.trace = h;
+        res.nontrivial = adds >= 3;
+        res.sig = std::string("solset/") + (opt ? (plan.getb("maximize") ? "max" : "min") : "no-objective") + fmt("/n%ld", adds / 3) + (ties ? "/ties" : "");
+        res.probes["solset.ties-under-the-stated-order"] += ties;
+        res.probes["solset.adds"] += adds;
+        Json info = Json::object();
+        info["adds"] = Json(adds);
+        res.info = info;
+    }
+    return res;
+}
+
 sim::CaseResult PlanSim::run(const sim::Options &o, const Json &plan)
 {
+    if (plan.gets("kind") == "solset")
+        return runSolset(o, plan);
     sim::CaseResult res;
     Ctx c{o, plan, res};
     const std::string P = o.prop;
